@@ -44,6 +44,16 @@ Fixpoint xl_while {S R : Type} (fuel : nat) (cond : S -> bool) (body : S -> xl_c
       else Some (inl s)
   end.
 
+Lemma xl_while_S : forall {S R} fuel (cond : S -> bool) (body : S -> xl_ctl S R) (s : S),
+  xl_while (Datatypes.S fuel) cond body s =
+  if cond s then match body s with
+                 | XlNext s' => xl_while fuel cond body s'
+                 | XlBreak s' => Some (inl s')
+                 | XlReturn r => Some (inr r)
+                 end
+  else Some (inl s).
+Proof. reflexivity. Qed.
+
 Definition xl_W64 : Z := 18446744073709551616.
 Definition xl_u64 (z : Z) : Z := z mod xl_W64.
 
